@@ -211,6 +211,17 @@ CHECKS["C14"] = dict(
          "reports the OS error; run() returns after stop and the process's descriptor count returns to its initial value.",
     note=MT_NOTE + " Kernel behaviour is trusted; sockets are not exercised.")
 
+CHECKS["C20"] = dict(
+    level="exploration", design="5 C20",
+    technique="runtime monitoring, cross-configuration differential: the same generated sender/stream programs and scenario "
+              "lists compiled under {C++17,20} x {NDEBUG, debug+async stacks} x {continuation visitation 0,1}; canonical "
+              "event logs and declared traits compared with the baseline configuration; async-stack root probe at quiescence",
+    text="Every program/scenario is executed under each configuration (quick: C++17/release/no-visitation vs "
+         "C++20/debug/visitation; thorough: all eight) and its canonical event log - callable invocations with payload "
+         "ids, leaf start/stop/completion order, outcome channel and payload, context tags - must be identical; in debug "
+         "configurations no AsyncStackRoot may remain current on the driver thread once a scenario is quiescent.",
+    note=EXPR_NOTE + " g++/libstdc++ only; coroutine plans are compared only between the C++20 configurations (see C10).")
+
 NOT_YET = "check not built yet (construction in progress, see DESIGN.md section 10)"
 
 
